@@ -512,6 +512,12 @@ func longArrays() {
 	emit(erase(aryLensOf[pk.UnsignedShort](b, append(append([]int{}, lens...), 32767, 32768, 65535))))
 	emit(erase(aryLensOf[pk.Int](b, append(append([]int{}, lens...), 65536))))
 	emit(erase(aryLensOf[pk.Long](b, append(append([]int{}, lens...), 65536))))
+	// every element count 0..300 (an implementation's own block or scratch size may sit anywhere)
+	var every []int
+	for i := 0; i <= everyLenMax; i++ {
+		every = append(every, i)
+	}
+	emit(erase(aryLensOf[pk.VarInt](leafUnsignedByte(), every)))
 }
 
 func buildShapes() {
